@@ -281,7 +281,7 @@ func (f *format) x10Replay(input string) string {
 
 // =================== C17: histories on one parser instance ===================
 // hist<fmt> \t <mode> doc / doc / ... / probe \t EV toks R verdict D depths ## C17 fresh=...
-func (f *format) histRun(mode string, docs [][]byte) (string, string) {
+func (f *format) histRun(modes string, docs [][]byte) (string, string) {
 	rec := newRecorder(-1)
 	var err error
 	depths := "- - -"
@@ -292,6 +292,10 @@ func (f *format) histRun(mode string, docs [][]byte) (string, string) {
 		for i, d := range docs {
 			if i == len(docs)-1 {
 				rec.evs = nil
+			}
+			mode := modes // one letter: the same entry point for every document; else one letter per document
+			if len(modes) > 1 {
+				mode = modes[i : i+1]
 			}
 			if mode == "P" {
 				err = p.Parse(d)
@@ -341,10 +345,19 @@ func (f *format) histCase(r *rng) string {
 		docs = append(docs, d)
 	}
 	mode := []string{"P", "W"}[r.n(2)]
-	if f.name == "json" && mode == "W" {
-		// a number needs a separator before the next document
+	if r.chance(1, 3) {
+		// the entry point changes from document to document
+		mode = ""
+		for range docs {
+			mode += []string{"P", "W"}[r.n(2)]
+		}
+	}
+	if f.name == "json" {
+		// a number written with Write needs a separator before the next document
 		for i := range docs {
-			docs[i] = append(docs[i], '\n')
+			if mode == "W" || (len(mode) > 1 && mode[i] == 'W') {
+				docs[i] = append(docs[i], '\n')
+			}
 		}
 	}
 	reused, fresh := f.histRun(mode, docs)
